@@ -110,8 +110,13 @@ func drawPacketBytes(t *rapid.T) []byte {
 			}
 			b = append(b, make([]byte, nb)...)
 		}
-		payload := rapid.SliceOfN(rapid.Byte(), 0, 24).Draw(t, "payload")
-		if rapid.Bool().Draw(t, "vpDesc") && len(payload) > 0 {
+		var payload []byte
+		if rapid.Bool().Draw(t, "structured") {
+			payload = drawStructuredPayload(t)
+		} else {
+			payload = rapid.SliceOfN(rapid.Byte(), 0, 24).Draw(t, "payload")
+		}
+		if rapid.IntRange(0, 3).Draw(t, "vpDesc") == 0 && len(payload) > 0 {
 			payload[0] |= 0x80 // X / I bit: extended descriptor follows
 			if len(payload) > 1 {
 				payload[1] |= 0x80
@@ -127,6 +132,188 @@ func drawPacketBytes(t *rapid.T) []byte {
 		}
 		return b
 	}
+}
+
+// drawStructuredPayload follows the payload grammars the classifiers parse
+// (H.264 aggregation and fragmentation units, AV1 aggregation header with
+// LEB128-sized OBU elements, VP8 and VP9 descriptors), with every length
+// field drawn from {0, header-size, exact fit, one short, one over, large}
+// so that each bounds check is met on both sides.
+func drawStructuredPayload(t *rapid.T) []byte {
+	small := func(label string) []byte { return rapid.SliceOfN(rapid.Byte(), 0, 6).Draw(t, label) }
+	var b []byte
+	switch rapid.IntRange(0, 4).Draw(t, "grammar") {
+	case 0: // H.264 STAP-A/B, MTAP16/24
+		typ := rapid.SampledFrom([]byte{24, 25, 26, 27}).Draw(t, "aggType")
+		b = append(b, typ|rapid.Byte().Draw(t, "nri")&0xE0)
+		if typ != 24 {
+			b = append(b, rapid.Byte().Draw(t, "don1"), rapid.Byte().Draw(t, "don2"))
+		}
+		units := rapid.IntRange(0, 4).Draw(t, "units")
+		for u := 0; u < units; u++ {
+			hdr := 0
+			if typ == 26 {
+				hdr = 3
+			} else if typ == 27 {
+				hdr = 4
+			}
+			bodyLen := rapid.SampledFrom([]int{0, 1, 2, 3, 4, 5, 6, 9}).Draw(t, "unitLen")
+			declared := bodyLen
+			switch rapid.IntRange(0, 7).Draw(t, "declared") {
+			case 0:
+				declared = bodyLen + 1
+			case 1:
+				if bodyLen > 0 {
+					declared = bodyLen - 1
+				}
+			case 2:
+				declared = 65535
+			}
+			b = append(b, byte(declared>>8), byte(declared))
+			body := make([]byte, bodyLen)
+			for i := range body {
+				body[i] = rapid.Byte().Draw(t, "unitByte")
+			}
+			if bodyLen > hdr {
+				body[hdr] = rapid.SampledFrom([]byte{1, 5, 6, 7, 8, 24, 28, 31, 0}).Draw(t, "nalType") | body[hdr]&0xE0
+			}
+			b = append(b, body...)
+		}
+	case 1: // H.264 single NAL / FU-A / FU-B / reserved
+		b = append(b, rapid.SampledFrom([]byte{0, 1, 5, 7, 23, 28, 29, 30, 31}).Draw(t, "nal")|rapid.Byte().Draw(t, "nri")&0xE0)
+		if rapid.Bool().Draw(t, "fuHeader") {
+			b = append(b, rapid.SampledFrom([]byte{0x87, 0x07, 0x85, 0x45, 0x80, 0x00}).Draw(t, "fu"))
+		}
+		b = append(b, small("rest")...)
+	case 2: // AV1 aggregation header + OBU elements
+		w := rapid.IntRange(0, 3).Draw(t, "W")
+		agg := byte(w<<4) | rapid.SampledFrom([]byte{0x08, 0x08, 0x08, 0x00, 0x88, 0x48, 0xC8}).Draw(t, "zyn")
+		b = append(b, agg)
+		n := rapid.IntRange(0, 4).Draw(t, "obus")
+		for i := 0; i < n; i++ {
+			bodyLen := rapid.SampledFrom([]int{0, 1, 2, 3, 5}).Draw(t, "obuLen")
+			body := make([]byte, bodyLen)
+			for j := range body {
+				body[j] = rapid.Byte().Draw(t, "obuByte")
+			}
+			if bodyLen > 0 {
+				body[0] = rapid.SampledFrom([]byte{1, 1, 2, 3, 6, 5, 0}).Draw(t, "obuType")<<3 | body[0]&0x87
+			}
+			if bodyLen > 1 {
+				body[1] = rapid.SampledFrom([]byte{0x00, 0x10, 0x20, 0x80, 0x60}).Draw(t, "frameHdr") | body[1]&0x0F
+			}
+			// size field: absent for the last element when W says so, else LEB128
+			// (minimal, padded with continuation bytes, over-long, or lying)
+			switch rapid.IntRange(0, 6).Draw(t, "sizeForm") {
+			case 0:
+				// no size field
+			case 1:
+				b = append(b, byte(bodyLen)|0x80, 0x00)
+			case 2:
+				b = append(b, 0x80, 0x80, 0x80, 0x80, 0x80, byte(bodyLen))
+			case 3:
+				b = append(b, byte(bodyLen+1))
+			case 4:
+				b = append(b, 0xFF, 0xFF, 0xFF, 0x7F)
+			default:
+				b = append(b, byte(bodyLen))
+			}
+			b = append(b, body...)
+		}
+	case 3: // VP8 descriptor
+		x := rapid.Bool().Draw(t, "X")
+		d0 := rapid.Byte().Draw(t, "vp8b0") & 0x7F
+		if x {
+			d0 |= 0x80
+		}
+		b = append(b, d0)
+		if x {
+			ext := rapid.Byte().Draw(t, "ILTK") & 0xF0
+			b = append(b, ext)
+			if ext&0x80 != 0 {
+				if rapid.Bool().Draw(t, "M") {
+					b = append(b, 0x80|rapid.Byte().Draw(t, "pidHi"), rapid.Byte().Draw(t, "pidLo"))
+				} else {
+					b = append(b, rapid.Byte().Draw(t, "pid7")&0x7F)
+				}
+			}
+			if ext&0x40 != 0 {
+				b = append(b, rapid.Byte().Draw(t, "tl0"))
+			}
+			if ext&0x30 != 0 {
+				b = append(b, rapid.Byte().Draw(t, "tidkey"))
+			}
+		}
+		n := rapid.SampledFrom([]int{0, 1, 9, 10, 11}).Draw(t, "vp8payload")
+		for i := 0; i < n; i++ {
+			b = append(b, rapid.Byte().Draw(t, "vp8byte"))
+		}
+	default: // VP9 descriptor
+		d0 := rapid.Byte().Draw(t, "vp9b0")
+		b = append(b, d0)
+		I, P, L, F, V := d0&0x80 != 0, d0&0x40 != 0, d0&0x20 != 0, d0&0x10 != 0, d0&0x02 != 0
+		if I {
+			if rapid.Bool().Draw(t, "M") {
+				b = append(b, 0x80|rapid.Byte().Draw(t, "pidHi"), rapid.Byte().Draw(t, "pidLo"))
+			} else {
+				b = append(b, rapid.Byte().Draw(t, "pid7")&0x7F)
+			}
+		}
+		if L {
+			b = append(b, rapid.Byte().Draw(t, "tid-u-sid-d"))
+			if !F {
+				b = append(b, rapid.Byte().Draw(t, "tl0picidx"))
+			}
+		}
+		if F && P {
+			n := rapid.IntRange(1, 4).Draw(t, "pdiffs")
+			for i := 0; i < n; i++ {
+				v := rapid.Byte().Draw(t, "pdiff") &^ 1
+				if i < n-1 {
+					v |= 1
+				}
+				b = append(b, v)
+			}
+		}
+		if V {
+			ns := rapid.IntRange(0, 7).Draw(t, "N_S")
+			y := rapid.Bool().Draw(t, "Y")
+			g := rapid.Bool().Draw(t, "G")
+			ss := byte(ns << 5)
+			if y {
+				ss |= 0x10
+			}
+			if g {
+				ss |= 0x08
+			}
+			b = append(b, ss)
+			if y {
+				for i := 0; i <= ns; i++ {
+					b = append(b, rapid.Byte().Draw(t, "w1"), rapid.Byte().Draw(t, "w2"), rapid.Byte().Draw(t, "h1"), rapid.Byte().Draw(t, "h2"))
+				}
+			}
+			if g {
+				ng := rapid.SampledFrom([]int{0, 1, 2, 3, 255}).Draw(t, "N_G")
+				b = append(b, byte(ng))
+				for i := 0; i < ng && i < 4; i++ {
+					r := rapid.IntRange(0, 3).Draw(t, "R")
+					b = append(b, rapid.Byte().Draw(t, "tu")&0xF0|byte(r<<2))
+					for j := 0; j < r; j++ {
+						b = append(b, rapid.Byte().Draw(t, "pgdiff"))
+					}
+				}
+			}
+		}
+		n := rapid.SampledFrom([]int{0, 1, 3}).Draw(t, "vp9payload")
+		for i := 0; i < n; i++ {
+			v := rapid.Byte().Draw(t, "vp9byte")
+			if i == 0 && rapid.Bool().Draw(t, "frameMarker") {
+				v = 0x80 | v&0x3F
+			}
+			b = append(b, v)
+		}
+	}
+	return b
 }
 
 func TestVerif_C12_CodecsBytes(t *testing.T) {
@@ -146,6 +333,12 @@ func TestVerif_C12_CodecsBytes(t *testing.T) {
 		c12cRec.ClassIf(len(data) < 12, "shorter_than_rtp_header")
 		c12cRec.ClassIf(len(data) >= 12 && data[0]&0x10 != 0, "extension_bit_set")
 		c12cRec.ClassIf(len(data) >= 12 && data[0]&0x0F != 0, "with_csrc")
+		if len(data) > 12 && data[0] == 0x80 && codec == "video/h264" {
+			c12cRec.ClassIf(data[12]&0x1F >= 24 && data[12]&0x1F <= 27, "h264_aggregation_unit")
+		}
+		if len(data) > 12 && data[0] == 0x80 && codec == "video/av1" {
+			c12cRec.ClassIf(data[12]&0x88 == 0x08, "av1_new_sequence")
+		}
 	})
 }
 
@@ -156,6 +349,10 @@ func FuzzVerif_C12_Codecs(f *testing.F) {
 	f.Add([]byte{0x80, 96, 0, 1, 0, 0, 0, 0, 0, 0, 0, 0, 0xAA, 0x81, 0x02, 0x22, 0x01, 0x80}, uint8(2), true, uint16(7), uint16(0))
 	f.Add([]byte{0x8F, 96, 0, 1, 0, 0, 0, 0, 0, 0, 0, 0}, uint8(1), true, uint16(7), uint16(9))
 	f.Add([]byte{0x80, 96, 0, 1, 0, 0, 0, 0, 0, 0, 0, 0, 0x18, 0, 1, 7}, uint8(5), false, uint16(7), uint16(9))
+	f.Add([]byte{0x80, 96, 0, 1, 0, 0, 0, 0, 0, 0, 0, 0, 0x78, 0, 2, 0x41, 0x9a, 0, 1, 5}, uint8(5), false, uint16(7), uint16(9))
+	f.Add([]byte{0x80, 96, 0, 1, 0, 0, 0, 0, 0, 0, 0, 0, 0x1b, 0, 0, 0, 5, 0, 0, 0, 0, 7}, uint8(5), false, uint16(7), uint16(9))
+	f.Add([]byte{0x80, 96, 0, 1, 0, 0, 0, 0, 0, 0, 0, 0, 0x28, 2, 0x0a, 0x00, 1, 0x30, 3, 0x30, 0x00, 0x00}, uint8(4), false, uint16(7), uint16(9))
+	f.Add([]byte{0x80, 96, 0, 1, 0, 0, 0, 0, 0, 0, 0, 0, 0xAB, 0x81, 0x02, 0x22, 0x38, 1, 0, 2, 0, 1, 0, 2, 0, 1, 0x14, 1, 0x82}, uint8(2), false, uint16(7), uint16(9))
 	if fn := os.Getenv("VERIF_REPLAY_FUZZ"); fn != "" {
 		if b, err := os.ReadFile(fn); err == nil {
 			f.Add(b, uint8(0), true, uint16(1), uint16(1))
